@@ -43,7 +43,7 @@ Theorem add_wav_files_sound existing reqs outs :
 Proof. intros H. apply (engine_table_sound false None 0 MAX_WAV_FILES []) in H. exact H. Qed.
 
 Theorem add_switches_sound existing reqs outs :
-  add_switches existing reqs = Ok outs -> table_sound 0 255 [] existing reqs outs.
+  add_switches existing reqs = Ok outs -> table_sound 0 255 [] existing (carried_first reqs) outs.
 Proof. intros H. apply (engine_table_sound false None 0 MAX_SWITCHES []) in H. exact H. Qed.
 
 (* SWNM rebuild: ids handed to unnamed-index switches are in range, distinct, and never an index that
@@ -59,6 +59,15 @@ Proof.
   unfold MAX_SWITCHES in Hi. split; [lia | tauto].
 Qed.
 
+Lemma count_fresh_carried_first reqs : count_fresh (carried_first reqs) = count_fresh reqs.
+Proof.
+  unfold carried_first, count_fresh. rewrite filter_app, app_length.
+  induction reqs as [|r reqs IH]; simpl; [reflexivity|]. destruct r; simpl; lia.
+Qed.
+
+Lemma in_carried_first r reqs : In r (carried_first reqs) -> In r reqs.
+Proof. unfold carried_first. rewrite in_app_iff, !filter_In. tauto. Qed.
+
 (* exhaustion raises (CUWP, WAV, SWNM editor, SWNM rebuild); a table with nothing new to place is never blocked *)
 Theorem cuwp_exhaustion_raises existing reqs :
   (length (free_ids 1 MAX_CUWP_SLOTS [] existing) < count_fresh (carried_first reqs))%nat ->
@@ -73,16 +82,7 @@ Proof. apply engine_exhausted. Qed.
 Theorem switches_exhaustion_raises existing reqs :
   (length (free_ids 0 MAX_SWITCHES [] existing) < count_fresh reqs)%nat ->
   exists e, add_switches existing reqs = Raise e.
-Proof. apply engine_exhausted. Qed.
-
-Lemma count_fresh_carried_first reqs : count_fresh (carried_first reqs) = count_fresh reqs.
-Proof.
-  unfold carried_first, count_fresh. rewrite filter_app, app_length.
-  induction reqs as [|r reqs IH]; simpl; [reflexivity|]. destruct r; simpl; lia.
-Qed.
-
-Lemma in_carried_first r reqs : In r (carried_first reqs) -> In r reqs.
-Proof. unfold carried_first. rewrite in_app_iff, !filter_In. tauto. Qed.
+Proof. intros H. apply engine_exhausted. rewrite count_fresh_carried_first. exact H. Qed.
 
 Theorem full_table_never_blocks_a_noop existing reqs :
   count_fresh reqs = 0%nat ->
@@ -166,3 +166,110 @@ Proof.
   rewrite !CF.
   exact (raise_mode_order_independent ks ks' n _ _ existing _ P Hnd Hun eq_refl eq_refl).
 Qed.
+
+(* ---- MRGN and the SWNM editor: the same statement in their modes (the location table leaves the surplus unplaced) ------- *)
+
+Lemma carried_first_canonical l n :
+  carried_first (map RCarry l ++ repeat RFresh n) = map RCarry l ++ repeat RFresh n.
+Proof.
+  unfold carried_first. rewrite !filter_app.
+  assert (filter (fun r => match r with RCarry _ => true | _ => false end) (map RCarry l) = map RCarry l) as ->
+    by (induction l; simpl; [reflexivity | f_equal; assumption]).
+  assert (filter (fun r => match r with RCarry _ => false | _ => true end) (map RCarry l) = []) as ->
+    by (induction l; simpl; auto).
+  assert (filter (fun r => match r with RCarry _ => true | _ => false end) (repeat RFresh n) = []) as ->
+    by (induction n; simpl; auto).
+  assert (filter (fun r => match r with RCarry _ => false | _ => true end) (repeat RFresh n) = repeat RFresh n) as ->
+    by (induction n; simpl; [reflexivity | f_equal; assumption]).
+  rewrite app_nil_r. reflexivity.
+Qed.
+
+Lemma carried_ids_canonical l n : carried_ids (map RCarry l ++ repeat RFresh n) = l.
+Proof.
+  unfold carried_ids. rewrite flat_map_app.
+  assert (flat_map (fun r => match r with RCarry k => [k] | _ => [] end) (repeat RFresh n) = []) as ->
+    by (induction n; simpl; auto).
+  rewrite app_nil_r. induction l; simpl; [reflexivity | f_equal; assumption].
+Qed.
+
+Theorem locations_order_independent existing ks ks' n :
+  Permutation ks ks' -> NoDup ks -> (forall k, In k ks -> ~ In k existing) ->
+  match add_locations existing (map RCarry ks ++ repeat RFresh n),
+        add_locations existing (map RCarry ks' ++ repeat RFresh n) with
+  | Ok o, Ok o' =>
+      fresh_ids (map RCarry ks ++ repeat RFresh n) o = fresh_ids (map RCarry ks' ++ repeat RFresh n) o' /\
+      Permutation (placed_ids o) (placed_ids o') /\
+      skipn (length ks) o = skipn (length ks') o'
+  | Raise _, Raise _ => True
+  | _, _ => False
+  end.
+Proof.
+  intros P Hnd Hun. unfold add_locations. rewrite !carried_ids_canonical, !carried_first_canonical.
+  assert (existsb (fun k => (k <? 1) || (MAX_LOCATIONS <? k)) (existing ++ ks') =
+          existsb (fun k => (k <? 1) || (MAX_LOCATIONS <? k)) (existing ++ ks)) as ->.
+  { rewrite !existsb_app. f_equal.
+    destruct (existsb _ ks) eqn:E.
+    - apply existsb_exists in E as (x & Hx & Hp). apply existsb_exists. exists x. split; [eapply Permutation_in; eauto | exact Hp].
+    - apply not_true_is_false. intros E'. apply existsb_exists in E' as (x & Hx & Hp).
+      assert (existsb (fun k => (k <? 1) || (MAX_LOCATIONS <? k)) ks = true) as Et; [|congruence].
+      apply existsb_exists. exists x. split; [eapply Permutation_in; [apply Permutation_sym; eauto | exact Hx] | exact Hp]. }
+  destruct (existsb (fun k => (k <? 1) || (MAX_LOCATIONS <? k)) (existing ++ ks)) eqn:Erange; [exact I|].
+  apply (order_independent_gen true (Some (1, MAX_LOCATIONS)) ks ks' n existing _ P Hnd Hun).
+  intros k Hk. unfold in_range. apply negb_true_iff.
+  destruct ((k <? 1) || (MAX_LOCATIONS <? k)) eqn:Ek; [|reflexivity].
+  assert (existsb (fun k => (k <? 1) || (MAX_LOCATIONS <? k)) (existing ++ ks) = true) as Et; [|congruence].
+  apply existsb_exists. exists k. split; [apply in_or_app; right; exact Hk | exact Ek].
+Qed.
+
+Theorem switches_order_independent existing ks ks' n :
+  Permutation ks ks' -> NoDup ks -> (forall k, In k ks -> ~ In k existing) ->
+  match add_switches existing (map RCarry ks ++ repeat RFresh n),
+        add_switches existing (map RCarry ks' ++ repeat RFresh n) with
+  | Ok o, Ok o' =>
+      fresh_ids (map RCarry ks ++ repeat RFresh n) o = fresh_ids (map RCarry ks' ++ repeat RFresh n) o' /\
+      Permutation (placed_ids o) (placed_ids o') /\
+      skipn (length ks) o = skipn (length ks') o'
+  | Raise _, Raise _ => True
+  | _, _ => False
+  end.
+Proof.
+  intros P Hnd Hun. unfold add_switches. rewrite !carried_first_canonical.
+  apply (order_independent_gen false None ks ks' n existing _ P Hnd Hun). intros; reflexivity.
+Qed.
+
+(* a location that carries a free index inside the table is placed there however full the table is (before the fix
+   620b222 a full table - e.g. only the reserved slot 64 left - left it out and the save died) *)
+Theorem carried_free_location_is_placed_even_when_full existing ks rest outs :
+  NoDup ks -> (forall k, In k ks -> ~ In k existing) ->
+  add_locations existing (map RCarry ks ++ rest) = Ok outs ->
+  forallb (fun r => match r with RCarry _ => false | _ => true end) rest = true ->
+  firstn (length ks) outs = map Placed ks.
+Proof.
+  intros Hnd Hun H Hrest. unfold add_locations in H.
+  destruct (existsb _ _) eqn:Erange; [discriminate|].
+  assert (carried_first (map RCarry ks ++ rest) = map RCarry ks ++ rest) as CF.
+  { unfold carried_first. rewrite !filter_app.
+    assert (filter (fun r => match r with RCarry _ => true | _ => false end) (map RCarry ks) = map RCarry ks) as ->
+      by (clear; induction ks; simpl; [reflexivity | f_equal; assumption]).
+    assert (filter (fun r => match r with RCarry _ => false | _ => true end) (map RCarry ks) = []) as ->
+      by (clear; induction ks; simpl; auto).
+    assert (filter (fun r => match r with RCarry _ => true | _ => false end) rest = []) as ->.
+    { clear -Hrest. induction rest as [|r rest IH]; [reflexivity|]. simpl in *. apply andb_true_iff in Hrest as [Hr Hrest].
+      destruct r; try discriminate; apply IH; assumption. }
+    assert (filter (fun r => match r with RCarry _ => false | _ => true end) rest = rest) as ->.
+    { clear -Hrest. induction rest as [|r rest IH]; [reflexivity|]. simpl in *. apply andb_true_iff in Hrest as [Hr Hrest].
+      destruct r; try discriminate; f_equal; apply IH; assumption. }
+    rewrite app_nil_r. reflexivity. }
+  rewrite CF in H. rewrite engine_carried_prefix_gen in H; auto.
+  - apply bind_ok_inv in H as (o & Ho & Hk). inversion Hk; subst outs.
+    rewrite <- (map_length Placed ks) at 1. rewrite firstn_app, Nat.sub_diag, firstn_all. simpl. apply app_nil_r.
+  - intros k Hk. unfold in_range. apply negb_true_iff.
+    destruct ((k <? 1) || (MAX_LOCATIONS <? k)) eqn:Ek; [|reflexivity].
+    assert (existsb (fun k => (k <? 1) || (MAX_LOCATIONS <? k)) (existing ++ carried_ids (map RCarry ks ++ rest)) = true) as Et; [|congruence].
+    apply existsb_exists. exists k. split; [|exact Ek]. apply in_or_app. right.
+    unfold carried_ids. rewrite flat_map_app. apply in_or_app. left. apply in_flat_map. exists (RCarry k). split; [apply in_map; exact Hk | left; reflexivity].
+Qed.
+
+Example carried_64_on_a_full_table : 
+  add_locations (range_from 1 63 ++ range_from 65 191) [RCarry 64] = Ok [Placed 64].
+Proof. vm_compute. reflexivity. Qed.
